@@ -37,6 +37,11 @@ func (k msgServer) AddFeeToDispute(goCtx context.Context,
 	if sender.Equals(sdk.MustAccAddressFromBech32(dispute.InitialEvidence.Reporter)) && msg.PayFromBond {
 		return nil, errors.New("disputed reporter can't add fee from bond")
 	}
+	// fees can only be added while the dispute is waiting to be fully funded; a dispute that is
+	// already voting or resolved must not be funded (and slashed, and opened for voting) again
+	if dispute.DisputeStatus != types.Prevote {
+		return nil, types.ErrDisputeFeeAlreadyMet
+	}
 	// check if time to add fee has expired
 	if ctx.BlockTime().After(dispute.DisputeEndTime) {
 		return nil, types.ErrDisputeTimeExpired
